@@ -1,19 +1,954 @@
-//! Engine `auth` (see /verif/DESIGN.md section 5). Entry points used by main.rs.
+//! Engine `auth` (see /verif/DESIGN.md section 5, C20). Entry points used by main.rs.
+//!
+//! Real: `tako::comm::do_authentication` (Authenticator, make_auth_request/_response,
+//! finish_authentication, bincode (de)serialisation, orion sealing/opening, the tokio timeouts on
+//! a paused clock) and the tokio-util `LengthDelimitedCodec` on both ends of every connection.
+//! Stub: the TCP stream (an in-memory byte pipe owned by the adversary), the task scheduler
+//! (futures are polled by hand), the three-line codec builder (copy of make_protocol_builder).
 
-use crate::batch::CheckArgs;
+mod genr;
+mod oracle;
+mod wire;
+mod world;
+
+use crate::batch::{CheckArgs, load_known_findings, write_json};
+use crate::sim::panic::catch;
+use crate::sim::rng::{Rng, mix};
+use oracle::{Finding, N_CONFIG_CLASSES, config_class, config_class_name, judge, undisturbed_pair};
+use serde_json::{Value, json};
+use std::collections::BTreeMap;
 use std::path::Path;
+use std::time::Instant;
+use world::{CLASSES, Decision, Exec, Outcome, Scenario, WorldResult};
 
 /// Property ids this engine decides
-pub const PROPERTIES: &[&str] = &[];
+pub const PROPERTIES: &[&str] = &["C20"];
 
-/// Runs the check of `args.property`; returns the process exit code (0 / 1 / 2).
-pub fn check(_args: &CheckArgs) -> i32 {
-    eprintln!("engine auth: not implemented yet");
-    2
+const ENGINE_TAG: u64 = 0xA07;
+const PROPERTY_TAG: u64 = 20;
+const QUICK_RUNS: u64 = 240_000;
+const THOROUGH_MIN_ROUNDS: u64 = 20;
+const THOROUGH_MAX_ROUNDS: u64 = 120;
+const THOROUGH_CAP_S: f64 = 2400.0;
+const MIN_HITS: u64 = 5;
+const N_SLOTS: usize = 4;
+/// CLASSES without "peer-gone" (a consequence, not a choice of the adversary)
+const N_GRID_CLASSES: usize = 12;
+
+fn fnv(s: &str) -> u64 {
+    let mut h = 0xcbf29ce484222325u64;
+    for b in s.bytes() {
+        h ^= b as u64;
+        h = h.wrapping_mul(0x100000001b3);
+    }
+    h
+}
+
+fn new_runtime() -> tokio::runtime::Runtime {
+    tokio::runtime::Builder::new_current_thread()
+        .enable_time()
+        .start_paused(true)
+        .build()
+        .expect("tokio runtime")
+}
+
+/* ---------------------------------------------------------------------------------------- */
+/* Aggregation                                                                              */
+/* ---------------------------------------------------------------------------------------- */
+
+#[derive(Clone)]
+struct FirstFinding {
+    run: u64,
+    seed: u64,
+    count: u64,
+    message: String,
+    scenario: Scenario,
+    template: usize,
+}
+
+#[derive(Default)]
+struct Agg {
+    runs: u64,
+    endpoints: u64,
+    connections: u64,
+    sim_ms: u64,
+    steps: u64,
+    grid: Vec<u64>,
+    outcomes: BTreeMap<String, u64>,
+    faults: BTreeMap<String, u64>,
+    probes: BTreeMap<String, u64>,
+    templates: BTreeMap<String, u64>,
+    nontrivial: Vec<u64>,
+    states: Vec<u64>,
+    hash: u64,
+    findings: BTreeMap<String, FirstFinding>,
+    samples: BTreeMap<u64, Value>,
+    harness_errors: Vec<String>,
+}
+
+fn bump(m: &mut BTreeMap<String, u64>, k: &str, by: u64) {
+    if by > 0 {
+        *m.entry(k.to_string()).or_insert(0) += by;
+    }
+}
+
+fn sorted_dedup(v: &mut Vec<u64>) {
+    v.sort_unstable();
+    v.dedup();
+}
+
+impl Agg {
+    fn new() -> Self {
+        Agg {
+            grid: vec![0; N_CONFIG_CLASSES * N_SLOTS * N_GRID_CLASSES],
+            ..Default::default()
+        }
+    }
+
+    fn merge(&mut self, o: Agg) {
+        self.runs += o.runs;
+        self.endpoints += o.endpoints;
+        self.connections += o.connections;
+        self.sim_ms += o.sim_ms;
+        self.steps += o.steps;
+        for (a, b) in self.grid.iter_mut().zip(o.grid.iter()) {
+            *a += *b;
+        }
+        for (k, v) in &o.outcomes {
+            bump(&mut self.outcomes, k, *v);
+        }
+        for (k, v) in &o.faults {
+            bump(&mut self.faults, k, *v);
+        }
+        for (k, v) in &o.probes {
+            bump(&mut self.probes, k, *v);
+        }
+        for (k, v) in &o.templates {
+            bump(&mut self.templates, k, *v);
+        }
+        self.nontrivial.extend(o.nontrivial);
+        sorted_dedup(&mut self.nontrivial);
+        self.states.extend(o.states);
+        sorted_dedup(&mut self.states);
+        self.hash = self.hash.wrapping_add(o.hash);
+        for (sig, f) in o.findings {
+            match self.findings.get_mut(&sig) {
+                None => {
+                    self.findings.insert(sig, f);
+                }
+                Some(mine) => {
+                    let total = mine.count + f.count;
+                    if f.run < mine.run {
+                        *mine = f;
+                    }
+                    mine.count = total;
+                }
+            }
+        }
+        self.samples.extend(o.samples);
+        self.harness_errors.extend(o.harness_errors);
+    }
+
+    fn grid_stats(&self) -> (usize, usize, usize, u64) {
+        let total = self.grid.len();
+        let hit = self.grid.iter().filter(|x| **x > 0).count();
+        let full = self.grid.iter().filter(|x| **x >= MIN_HITS).count();
+        let min = self.grid.iter().copied().min().unwrap_or(0);
+        (total, hit, full, min)
+    }
+}
+
+fn grid_index(cc: usize, slot: usize, class: usize) -> usize {
+    (cc * N_SLOTS + (slot - 1)) * N_GRID_CLASSES + class
+}
+
+fn cfg_json(sc: &Scenario) -> Value {
+    json!(
+        sc.endpoints
+            .iter()
+            .enumerate()
+            .map(|(i, c)| format!(
+                "E{i}: key={} {}->{} protocol={} connected-to={}",
+                ["none", "K1", "K2"][c.key.min(2) as usize],
+                c.my_role,
+                c.peer_role,
+                c.protocol,
+                c.peer.map(|p| format!("E{p}")).unwrap_or("adversary only".into())
+            ))
+            .collect::<Vec<_>>()
+    )
+}
+
+fn account(
+    agg: &mut Agg,
+    idx: u64,
+    seed: u64,
+    sc: &Scenario,
+    template: usize,
+    res: &WorldResult,
+    findings: &[Finding],
+) {
+    let n = sc.endpoints.len();
+    agg.runs += 1;
+    agg.endpoints += n as u64;
+    agg.sim_ms += res.sim_ms;
+    agg.steps += res.steps as u64;
+    bump(&mut agg.templates, genr::TEMPLATES[template], 1);
+    bump(&mut agg.probes, "timeouts_fired", res.timeouts_fired as u64);
+    let mut abstract_case = String::new();
+    let mut state = String::new();
+    let mut nontrivial = false;
+    for e in 0..n {
+        let c = &sc.endpoints[e];
+        match c.peer {
+            Some(q) if q > e => {
+                agg.connections += 1;
+                if !oracle::compatible(c, &sc.endpoints[q]) {
+                    nontrivial = true;
+                }
+            }
+            None => agg.connections += 1,
+            _ => {}
+        }
+        abstract_case.push_str(&format!(
+            "|{}:{}>{}:{}:{:?}",
+            c.key, c.my_role, c.peer_role, c.protocol, c.peer
+        ));
+        let r = &res.eps[e];
+        bump(&mut agg.outcomes, &r.outcome.short(), 1);
+        state.push_str(&format!("|{}", r.outcome.short()));
+        if let Outcome::Accept { sealer, opener } = &r.outcome {
+            if sealer != opener {
+                bump(&mut agg.probes, "accept_with_half_encryption", 1);
+            }
+            if (c.key != 0) != *sealer {
+                bump(&mut agg.probes, "accept_encryption_differs_from_key_presence", 1);
+            }
+        }
+        for p in 0..2 {
+            let Some(inj) = &r.injected[p] else { continue };
+            if inj.class != 0 {
+                nontrivial = true;
+                bump(&mut agg.faults, CLASSES[inj.class], 1);
+            }
+            let name = if inj.class == 1 {
+                "delay-short"
+            } else {
+                inj.detail.as_str()
+            };
+            abstract_case.push_str(&format!(";{p}:{}:{name}", inj.class));
+            state.push_str(&format!(
+                ";{}:{:?}:{}",
+                inj.class, inj.source, inj.modified as u8
+            ));
+            match c.peer {
+                Some(q) => {
+                    let (a, b) = (e.min(q), e.max(q));
+                    let cc = config_class(&sc.endpoints[a], &sc.endpoints[b]);
+                    // slot 1: request A->B, 2: request B->A, 3: response A->B, 4: response B->A
+                    let slot = 1 + 2 * p + (e == a) as usize;
+                    if inj.class < N_GRID_CLASSES {
+                        agg.grid[grid_index(cc, slot, inj.class)] += 1;
+                    } else {
+                        bump(&mut agg.probes, "peer_gone_before_sending", 1);
+                    }
+                }
+                None => bump(&mut agg.probes, "inputs_of_adversary_only_endpoints", 1),
+            }
+        }
+        // probes on accepting endpoints
+        if r.outcome.accepted() {
+            let attacked = r.injected.iter().flatten().any(|i| i.class > 1);
+            if c.key == 0 {
+                bump(&mut agg.probes, "keyless_accepts", 1);
+                if attacked {
+                    bump(&mut agg.probes, "keyless_accepts_with_active_adversary_unconstrained", 1);
+                }
+            } else {
+                bump(&mut agg.probes, "keyed_accepts_judged_by_provenance", 1);
+                if attacked {
+                    bump(&mut agg.probes, "keyed_accepts_with_active_adversary", 1);
+                }
+                let resp_src = r.injected[1].as_ref().and_then(|i| i.source);
+                if let Some(s) = resp_src {
+                    if Some(s.ep) != c.peer {
+                        bump(&mut agg.probes, "accept_of_answer_relayed_from_third_endpoint", 1);
+                    }
+                    if res.eps[s.ep].injected[0].as_ref().is_some_and(|i| i.modified) {
+                        bump(&mut agg.probes, "accept_although_responder_saw_rewritten_claims", 1);
+                    }
+                    let req = r.injected[0].as_ref();
+                    if req.is_some_and(|i| i.modified || i.source.map(|x| x.ep) != Some(s.ep)) {
+                        bump(&mut agg.probes, "accept_with_foreign_or_modified_request", 1);
+                    }
+                }
+            }
+        }
+    }
+    for x in 0..n {
+        for y in x + 1..n {
+            if undisturbed_pair(sc, res, x, y) {
+                let m = oracle::compatible(&sc.endpoints[x], &sc.endpoints[y]);
+                bump(
+                    &mut agg.probes,
+                    if m {
+                        "undisturbed_pairs_matching"
+                    } else {
+                        "undisturbed_pairs_mismatching"
+                    },
+                    1,
+                );
+                if sc.endpoints[x].peer != Some(y) {
+                    bump(&mut agg.probes, "undisturbed_pairs_cross_relayed", 1);
+                }
+            }
+        }
+    }
+    if nontrivial {
+        agg.nontrivial.push(fnv(&abstract_case));
+    }
+    let sh = fnv(&state);
+    agg.states.push(sh);
+    agg.hash = agg.hash.wrapping_add(mix(&[idx, sh, fnv(&abstract_case)]));
+    let mut seen = std::collections::BTreeSet::new();
+    for f in findings {
+        let sig = f.signature();
+        if !seen.insert(sig.clone()) {
+            continue;
+        }
+        let e = agg.findings.entry(sig).or_insert_with(|| FirstFinding {
+            run: idx,
+            seed,
+            count: 0,
+            message: f.message.clone(),
+            scenario: sc.clone(),
+            template,
+        });
+        e.count += 1;
+    }
+}
+
+fn sample_json(idx: u64, seed: u64, sc: &Scenario, template: usize, res: &WorldResult) -> Value {
+    json!({
+        "run": idx,
+        "run_seed": seed,
+        "template": genr::TEMPLATES[template],
+        "endpoints": cfg_json(sc),
+        "decisions": sc.decisions,
+        "trace": res.log,
+        "outcomes": res.eps.iter().map(|e| e.outcome.short()).collect::<Vec<_>>(),
+    })
+}
+
+/* ---------------------------------------------------------------------------------------- */
+/* Runs                                                                                     */
+/* ---------------------------------------------------------------------------------------- */
+
+fn run_seed(verif_seed: u64, idx: u64) -> u64 {
+    mix(&[verif_seed, ENGINE_TAG, PROPERTY_TAG, idx])
+}
+
+const SAMPLE_RUNS: [u64; 3] = [0, 1, 2];
+
+fn run_range(verif_seed: u64, from: u64, n: u64, offset: u64, stride: u64) -> Agg {
+    let rt = new_runtime();
+    let mut agg = Agg::new();
+    let mut idx = from + offset;
+    while idx < from + n {
+        let seed = run_seed(verif_seed, idx);
+        let sample = SAMPLE_RUNS.contains(&idx);
+        let r = catch(|| {
+            let mut rng = Rng::new(seed);
+            let (sc, t) = genr::gen_scenario(&mut rng);
+            let exec = Exec {
+                rt: &rt,
+                verbose: sample,
+            };
+            let res = exec.run(&sc);
+            (sc, t, res)
+        });
+        match r {
+            Ok((sc, t, Ok(res))) => {
+                let findings = judge(&sc, &res);
+                account(&mut agg, idx, seed, &sc, t, &res, &findings);
+                if sample {
+                    agg.samples.insert(idx, sample_json(idx, seed, &sc, t, &res));
+                }
+            }
+            Ok((_, _, Err(e))) => agg.harness_errors.push(format!("run {idx}: {e}")),
+            Err(p) => agg
+                .harness_errors
+                .push(format!("run {idx}: panic outside the handshake at {}: {}", p.location(), p.message)),
+        }
+        idx += stride;
+    }
+    agg
+}
+
+fn run_round(verif_seed: u64, from: u64, n: u64, jobs: u64) -> Agg {
+    let jobs = jobs.clamp(1, 256);
+    let mut parts: Vec<Agg> = std::thread::scope(|s| {
+        let handles: Vec<_> = (0..jobs)
+            .map(|t| s.spawn(move || run_range(verif_seed, from, n, t, jobs)))
+            .collect();
+        handles
+            .into_iter()
+            .map(|h| h.join().unwrap_or_else(|_| {
+                let mut a = Agg::new();
+                a.harness_errors.push("worker thread panicked".into());
+                a
+            }))
+            .collect()
+    });
+    let mut agg = Agg::new();
+    for p in parts.drain(..) {
+        agg.merge(p);
+    }
+    agg
+}
+
+/* ---------------------------------------------------------------------------------------- */
+/* Self-test of the oracle (no repository code is changed)                                  */
+/* ---------------------------------------------------------------------------------------- */
+
+/// (probe name, value); Err = the harness cannot be trusted
+fn selftest(rt: &tokio::runtime::Runtime) -> Result<Vec<(String, u64)>, String> {
+    use world::{EndpointCfg, FrameRef, SELFTEST_ROLE};
+    let exec = Exec { rt, verbose: false };
+    let mut probes = Vec::new();
+    // 1. a role that is its own complement makes reflection succeed; the provenance oracle must
+    //    notice. (No HyperQueue endpoint is configured like this; the check runs never are.)
+    let sc = Scenario {
+        endpoints: vec![EndpointCfg {
+            key: 1,
+            my_role: SELFTEST_ROLE.into(),
+            peer_role: SELFTEST_ROLE.into(),
+            protocol: 0,
+            peer: None,
+        }],
+        decisions: vec![vec![
+            Decision::Subst {
+                from: FrameRef { ep: 0, kind: 0 },
+            },
+            Decision::Subst {
+                from: FrameRef { ep: 0, kind: 1 },
+            },
+        ]],
+        order: vec![],
+    };
+    let res = exec.run(&sc)?;
+    let f = judge(&sc, &res);
+    let detected = f
+        .iter()
+        .any(|f| f.signature() == "accept-unproven@reflected-own-response");
+    if res.eps[0].outcome.accepted() && !detected {
+        return Err("self-test: a reflected handshake was accepted and the oracle stayed silent".into());
+    }
+    probes.push(("selftest_reflection_on_symmetric_role_detected".to_string(), detected as u64));
+    // 2. honest matching pair: both accept, nothing fires, no time passes
+    let pair = |ka: u8, kb: u8| Scenario {
+        endpoints: vec![
+            EndpointCfg {
+                key: ka,
+                my_role: "server".into(),
+                peer_role: "worker".into(),
+                protocol: 0,
+                peer: Some(1),
+            },
+            EndpointCfg {
+                key: kb,
+                my_role: "worker".into(),
+                peer_role: "server".into(),
+                protocol: 0,
+                peer: Some(0),
+            },
+        ],
+        decisions: vec![
+            vec![Decision::Deliver, Decision::Deliver],
+            vec![Decision::Deliver, Decision::Deliver],
+        ],
+        order: vec![],
+    };
+    let sc = pair(1, 1);
+    let res = exec.run(&sc)?;
+    if !judge(&sc, &res).is_empty() || res.sim_ms != 0 {
+        return Err("self-test: the honest exchange is not clean".into());
+    }
+    probes.push((
+        "selftest_honest_pair_accepts".to_string(),
+        res.eps.iter().all(|e| e.outcome.accepted()) as u64,
+    ));
+    // 3. a dropped response: the timeout machinery must end the handshake after 15 s
+    let mut sc = pair(1, 1);
+    sc.decisions[0][1] = Decision::Drop;
+    let res = exec.run(&sc)?;
+    let timed_out = matches!(&res.eps[0].outcome, Outcome::Refuse(c) if c == "timeout");
+    if !timed_out || res.sim_ms < world::TIMEOUT_MS {
+        return Err(format!(
+            "self-test: a dropped response did not end in a timeout ({}, {} ms)",
+            res.eps[0].outcome.short(),
+            res.sim_ms
+        ));
+    }
+    probes.push(("selftest_drop_ends_in_timeout".to_string(), 1));
+    // 4. the oracle must fire when an accepting endpoint is judged against a wrong table: feed
+    //    the judge a result in which a mismatching pair is claimed to have accepted
+    let sc = pair(1, 2);
+    let mut res = exec.run(&sc)?;
+    if res.eps.iter().any(|e| e.outcome.accepted()) {
+        // a real violation: the normal runs will report it
+        probes.push(("selftest_forged_result_detected".to_string(), 0));
+    } else {
+        for e in res.eps.iter_mut() {
+            e.outcome = Outcome::Accept {
+                sealer: true,
+                opener: true,
+            };
+        }
+        let sigs: Vec<String> = judge(&sc, &res).iter().map(|f| f.signature()).collect();
+        if !sigs.contains(&"accept-on-mismatch@keys-differ".to_string())
+            || !sigs.contains(&"accept-unproven@foreign-key".to_string())
+        {
+            return Err(format!("self-test: forged acceptance not detected ({sigs:?})"));
+        }
+        probes.push(("selftest_forged_result_detected".to_string(), 1));
+    }
+    Ok(probes)
+}
+
+/* ---------------------------------------------------------------------------------------- */
+/* Minimisation and replay files                                                            */
+/* ---------------------------------------------------------------------------------------- */
+
+fn fires(exec: &Exec, sc: &Scenario, sig: &str) -> bool {
+    match catch(|| exec.run(sc)) {
+        Ok(Ok(res)) => judge(sc, &res).iter().any(|f| f.signature() == sig),
+        _ => false,
+    }
+}
+
+fn references(sc: &Scenario, x: usize) -> bool {
+    sc.decisions.iter().enumerate().any(|(e, ds)| {
+        e != x
+            && ds.iter().any(|d| match d {
+                Decision::Subst { from } => from.ep == x,
+                Decision::Mutate { from, .. } | Decision::Wire { from, .. } => {
+                    from.is_some_and(|f| f.ep == x)
+                }
+                _ => false,
+            })
+    })
+}
+
+fn minimise(exec: &Exec, sc: &Scenario, sig: &str) -> (Scenario, u32) {
+    let mut best = sc.clone();
+    let mut tries = 0u32;
+    let mut changed = true;
+    while changed {
+        changed = false;
+        if !best.order.is_empty() {
+            let mut c = best.clone();
+            c.order.clear();
+            tries += 1;
+            if fires(exec, &c, sig) {
+                best = c;
+                changed = true;
+            }
+        }
+        // drop the last endpoint when nothing refers to it
+        if best.endpoints.len() > 1 {
+            let x = best.endpoints.len() - 1;
+            if !references(&best, x) {
+                let mut c = best.clone();
+                c.endpoints.pop();
+                c.decisions.pop();
+                for e in 0..c.endpoints.len() {
+                    if c.endpoints[e].peer == Some(x) {
+                        c.endpoints[e].peer = None;
+                        for d in c.decisions[e].iter_mut() {
+                            if matches!(
+                                d,
+                                Decision::Deliver
+                                    | Decision::DelayShort { .. }
+                                    | Decision::DelayPastTimeout
+                            ) || matches!(d, Decision::Mutate { from: None, .. } | Decision::Wire { from: None, .. })
+                            {
+                                *d = Decision::Drop;
+                            }
+                        }
+                    }
+                }
+                tries += 1;
+                if fires(exec, &c, sig) {
+                    best = c;
+                    changed = true;
+                    continue;
+                }
+            }
+        }
+        for e in 0..best.endpoints.len() {
+            for p in 0..2 {
+                let neutral = genr::neutral_decision(&best, e);
+                if best.decisions[e][p] == neutral {
+                    continue;
+                }
+                let mut c = best.clone();
+                c.decisions[e][p] = neutral;
+                tries += 1;
+                if fires(exec, &c, sig) {
+                    best = c;
+                    changed = true;
+                }
+            }
+        }
+    }
+    (best, tries)
+}
+
+fn sanitize(sig: &str) -> String {
+    sig.chars()
+        .map(|c| if c.is_ascii_alphanumeric() || c == '-' { c } else { '_' })
+        .collect()
+}
+
+fn replay_json(
+    seed: u64,
+    verif_seed: u64,
+    run: u64,
+    sig: &str,
+    message: &str,
+    sc: &Scenario,
+    template: usize,
+    minimised: bool,
+) -> Value {
+    json!({
+        "engine": "auth",
+        "property": "C20",
+        "seed": seed,
+        "verif_seed": verif_seed,
+        "run_index": run,
+        "signature": format!("C20 {sig}"),
+        "message": message,
+        "template": genr::TEMPLATES[template],
+        "minimised": minimised,
+        "endpoints_readable": cfg_json(sc),
+        "scenario": sc,
+    })
 }
 
 /// Replays a replay file written by this engine; exit code as for `check`.
-pub fn replay(_path: &Path, _verbose: bool) -> i32 {
-    eprintln!("engine auth: not implemented yet");
-    2
+pub fn replay(path: &Path, verbose: bool) -> i32 {
+    let Some(v) = std::fs::read_to_string(path)
+        .ok()
+        .and_then(|t| serde_json::from_str::<Value>(&t).ok())
+    else {
+        eprintln!("auth replay: cannot read {}", path.display());
+        return 2;
+    };
+    let Some(sc) = v
+        .get("scenario")
+        .and_then(|s| serde_json::from_value::<Scenario>(s.clone()).ok())
+    else {
+        eprintln!("auth replay: no scenario in {}", path.display());
+        return 2;
+    };
+    let property = v.get("property").and_then(|p| p.as_str()).unwrap_or("C20").to_string();
+    let recorded = v
+        .get("signature")
+        .and_then(|s| s.as_str())
+        .unwrap_or("")
+        .to_string();
+    let rt = new_runtime();
+    let exec = Exec { rt: &rt, verbose: true };
+    let res = match catch(|| exec.run(&sc)) {
+        Ok(Ok(r)) => r,
+        Ok(Err(e)) => {
+            eprintln!("auth replay: cannot execute: {e}");
+            return 2;
+        }
+        Err(p) => {
+            eprintln!("auth replay: harness panic at {}: {}", p.location(), p.message);
+            return 2;
+        }
+    };
+    for l in cfg_json(&sc).as_array().unwrap() {
+        println!("{}", l.as_str().unwrap());
+    }
+    if verbose {
+        for l in &res.log {
+            println!("  {l}");
+        }
+    }
+    for (i, e) in res.eps.iter().enumerate() {
+        println!("E{i}: {}", e.outcome.short());
+    }
+    let findings = judge(&sc, &res);
+    let mut fired = false;
+    for f in &findings {
+        let sig = format!("{property} {}", f.signature());
+        println!("FINDING {sig}: {}", f.message);
+        if sig == recorded {
+            fired = true;
+        }
+    }
+    if fired {
+        println!("VIOLATION property={property} replay={}", path.display());
+        1
+    } else {
+        println!("recorded signature '{recorded}' does not fire");
+        0
+    }
+}
+
+/* ---------------------------------------------------------------------------------------- */
+/* Check                                                                                    */
+/* ---------------------------------------------------------------------------------------- */
+
+/// Runs the check of `args.property`; returns the process exit code (0 / 1 / 2).
+pub fn check(args: &CheckArgs) -> i32 {
+    if args.property != "C20" {
+        eprintln!("engine auth: unknown property {}", args.property);
+        return 2;
+    }
+    let start = Instant::now();
+    let main_rt = new_runtime();
+    let selftest_probes = match catch(|| selftest(&main_rt)) {
+        Ok(Ok(p)) => p,
+        Ok(Err(e)) => {
+            eprintln!("engine auth: {e}");
+            return 2;
+        }
+        Err(p) => {
+            eprintln!("engine auth: self-test panicked at {}: {}", p.location(), p.message);
+            return 2;
+        }
+    };
+    let round = args.runs_override.unwrap_or(QUICK_RUNS).max(1);
+    let thorough = args.tier == "thorough";
+    let mut agg = Agg::new();
+    let mut rounds = 0u64;
+    let mut capped = false;
+    loop {
+        let part = run_round(args.seed, rounds * round, round, args.jobs);
+        agg.merge(part);
+        rounds += 1;
+        if !thorough {
+            break;
+        }
+        let (_, _, _, min) = agg.grid_stats();
+        if rounds >= THOROUGH_MIN_ROUNDS && min >= MIN_HITS {
+            break;
+        }
+        if rounds >= THOROUGH_MAX_ROUNDS || start.elapsed().as_secs_f64() > THOROUGH_CAP_S {
+            capped = true;
+            break;
+        }
+    }
+    for (k, v) in &selftest_probes {
+        agg.probes.insert(k.clone(), *v);
+    }
+    let explore_wall = start.elapsed().as_secs_f64();
+
+    // violations
+    let known = load_known_findings(&args.verif_dir.join("known_findings.txt"));
+    let exec = Exec {
+        rt: &main_rt,
+        verbose: false,
+    };
+    let mut violations = 0u64;
+    let mut known_hit: Vec<String> = Vec::new();
+    let mut violation_lines: Vec<String> = Vec::new();
+    let mut finding_summaries: Vec<Value> = Vec::new();
+    let mut harness_error = !agg.harness_errors.is_empty();
+    for (sig, f) in &agg.findings {
+        if let Some(k) = known
+            .iter()
+            .find(|k| k.property == args.property && &k.signature == sig)
+        {
+            println!(
+                "KNOWN-FINDING: property={} signature={} {} ({} runs, first run {})",
+                args.property, sig, k.text, f.count, f.run
+            );
+            known_hit.push(sig.clone());
+            continue;
+        }
+        violations += 1;
+        let (min_sc, tries) = minimise(&exec, &f.scenario, sig);
+        let still = fires(&exec, &min_sc, sig);
+        let (sc, minimised) = if still { (min_sc, true) } else { (f.scenario.clone(), false) };
+        let message = match catch(|| exec.run(&sc)) {
+            Ok(Ok(res)) => judge(&sc, &res)
+                .into_iter()
+                .find(|x| &x.signature() == sig)
+                .map(|x| x.message)
+                .unwrap_or_else(|| f.message.clone()),
+            _ => f.message.clone(),
+        };
+        let path = args.verif_dir.join("replays").join(format!(
+            "{}-{}-{}.json",
+            args.property,
+            f.seed,
+            sanitize(sig)
+        ));
+        write_json(
+            &path,
+            &replay_json(f.seed, args.seed, f.run, sig, &message, &sc, f.template, minimised),
+        );
+        // re-execute in a fresh process
+        let code = std::env::current_exe()
+            .ok()
+            .and_then(|exe| {
+                std::process::Command::new(exe)
+                    .arg("replay")
+                    .arg(&path)
+                    .stdout(std::process::Stdio::null())
+                    .stderr(std::process::Stdio::null())
+                    .status()
+                    .ok()
+            })
+            .and_then(|s| s.code());
+        if code != Some(1) {
+            eprintln!(
+                "engine auth: replay of {} in a fresh process exited with {:?} instead of 1",
+                path.display(),
+                code
+            );
+            harness_error = true;
+        }
+        println!(
+            "FINDING {} {} ({} runs, first run {}, minimised in {} replays): {}",
+            args.property, sig, f.count, f.run, tries, message
+        );
+        violation_lines.push(format!(
+            "VIOLATION property={} replay={}",
+            args.property,
+            path.display()
+        ));
+        finding_summaries.push(json!({"signature": sig, "runs": f.count, "first_run": f.run,
+            "replay": path.display().to_string(), "message": message}));
+    }
+
+    // evidence
+    let (cells, hit, full, min) = agg.grid_stats();
+    let mut cell_rows: Vec<Value> = Vec::new();
+    let mut below: Vec<String> = Vec::new();
+    for cc in 0..N_CONFIG_CLASSES {
+        let mut per_slot = Vec::new();
+        for slot in 1..=N_SLOTS {
+            let row: Vec<u64> = (0..N_GRID_CLASSES)
+                .map(|c| agg.grid[grid_index(cc, slot, c)])
+                .collect();
+            for (c, h) in row.iter().enumerate() {
+                if *h < MIN_HITS {
+                    below.push(format!("{} / slot {} / {}: {}", config_class_name(cc), slot, CLASSES[c], h));
+                }
+            }
+            per_slot.push(json!(row));
+        }
+        cell_rows.push(json!({"configuration": config_class_name(cc), "hits_slot1_to_slot4_by_class": per_slot}));
+    }
+    let wall = start.elapsed().as_secs_f64();
+    let evidence = json!({
+        "property_id": args.property,
+        "tier": if thorough { "thorough" } else { "quick" },
+        "seed": args.seed,
+        "level": "exploration",
+        "coverage": {
+            "evaluations": agg.runs,
+            "distinct_nontrivial": agg.nontrivial.len(),
+            "rule": "One evaluation = one world drawn from mix(seed, engine, property, run index): a target connection E0-E1 whose configuration class (keys: none/same/different/one-sided x protocol: same/different x role expectations unmet: 0/1/2) is drawn first and then instantiated with keys {none,K1,K2}, roles {server,worker,hq-server,hq-client} (my role != expected role) and protocol {0,1}; optionally one or two more honest endpoints (other connections of the same parties: replay material and answering oracles); one adversary decision per (endpoint, input position) - 30% of the worlds instantiate one of 8 attack templates, the others carry 0-4 random decisions (57% exactly one) over the 11 active substitution classes. Every endpoint runs the real do_authentication; the adversary's decision is applied when the endpoint waits for that input. A case is non-trivial when at least one non-'deliver' class was applied or a connected pair mismatches; cases are distinct by (all endpoint configurations, applied class + source frame + mutation/forgery kind per input), parameters such as bit positions and delays are not counted. distinct_states counts distinct vectors of (outcome, applied class, provenance) over the endpoints.",
+            "samples": agg.samples.values().cloned().collect::<Vec<_>>(),
+            "runs_per_hour": (agg.runs as f64 / explore_wall.max(1e-9) * 3600.0) as u64,
+            "simulated_time_s": agg.sim_ms / 1000,
+            "faults_injected": agg.faults,
+            "probes": agg.probes,
+            "distinct_states": agg.states.len(),
+            "connections": agg.connections,
+            "handshakes_executed": agg.endpoints,
+            "adversary_actions": agg.steps,
+            "rounds": rounds,
+            "time_capped": capped,
+            "templates": agg.templates,
+            "outcomes": agg.outcomes,
+            "grid": {
+                "dimensions": format!("{} configuration classes x {} message slots x {} substitution classes", N_CONFIG_CLASSES, N_SLOTS, N_GRID_CLASSES),
+                "classes": CLASSES[..N_GRID_CLASSES].to_vec(),
+                "slots": ["1: request A->B", "2: request B->A", "3: response A->B", "4: response B->A"],
+                "cells": cells,
+                "cells_hit": hit,
+                "cells_hit_at_least_5": full,
+                "fraction_hit": hit as f64 / cells as f64,
+                "fraction_hit_at_least_5": full as f64 / cells as f64,
+                "min_hits": min,
+                "cells_below_5": below,
+                "hits": cell_rows,
+            },
+            "log_hash": format!("{:016x}", agg.hash),
+            "components": {
+                "real": [
+                    "tako::comm::do_authentication (Authenticator::make_auth_request / make_auth_response / finish_authentication)",
+                    "tako::comm::serialize / deserialize (bincode)",
+                    "orion StreamSealer / StreamOpener with OS randomness",
+                    "tokio::time::timeout on a paused clock (15 s handshake timeouts fire exactly)",
+                    "tokio_util LengthDelimitedCodec + Framed + split on every endpoint"
+                ],
+                "stub": [
+                    "TCP stream: in-memory byte pipe per endpoint, owned by the adversary",
+                    "task scheduling: endpoint futures polled by hand with a flag waker",
+                    "make_protocol_builder: copied (little endian, MAX_FRAME_SIZE) because the path is pub(crate)",
+                    "callers (worker_authentication, connect_to_server_and_authenticate, Connection::init): only their arguments (roles, protocol 0) are reproduced"
+                ]
+            },
+            "known_findings_hit": known_hit,
+            "findings": finding_summaries,
+            "harness_errors": agg.harness_errors.iter().take(5).collect::<Vec<_>>(),
+        },
+        "assumptions": [
+            "Refuse = do_authentication returns an error (including the 15 s timeout and a closed connection); accept = it returns Ok.",
+            "Keyed endpoint: acceptance is allowed only if the response it was given is the unmodified answer of an honest endpoint with the same key, the expected role and the same protocol to this endpoint's request of this connection (challenge unmodified). Rewritten role/protocol claims in the request seen by the responder are not held against the accepting endpoint as long as the responder itself satisfies the three conditions (counted in probes.accept_although_responder_saw_rewritten_claims).",
+            "Endpoint without key: there is no secret, anybody on the wire can play the peer, so 'proved that it holds the same key' is vacuous. Required there: undisturbed exchanges follow the configuration table, and an accepting endpoint was given a request that claims its protocol, the expected role and no-key mode, and a response that is not the refusal message.",
+            "Roles with my_role == expected role are excluded (no HyperQueue endpoint is configured so; reflection trivially succeeds there and is used as the oracle self-test).",
+            "The adversary has no key material: forged sealed responses contain constant bytes. Nonces, challenges and ciphertexts come from the OS and never enter logs, hashes or decisions.",
+            "Frames on the wire are atomic except for the explicit wire-fault class; no write back-pressure (frames are < 200 bytes)."
+        ],
+        "wall_s": wall,
+        "violations": violations,
+    });
+    write_json(
+        &args.verif_dir.join("evidence").join(format!("{}.json", args.property)),
+        &evidence,
+    );
+    for e in agg.harness_errors.iter().take(5) {
+        eprintln!("engine auth: harness error: {e}");
+    }
+    println!(
+        "{}: {} runs ({} handshakes, {} connections, {} rounds) in {:.1}s, grid {}/{} cells hit, {}/{} >= {} (min {}), distinct non-trivial {}, states {}, log_hash {:016x}, violations={} known={}",
+        args.property,
+        agg.runs,
+        agg.endpoints,
+        agg.connections,
+        rounds,
+        wall,
+        hit,
+        cells,
+        full,
+        cells,
+        MIN_HITS,
+        min,
+        agg.nontrivial.len(),
+        agg.states.len(),
+        agg.hash,
+        violations,
+        known_hit.len()
+    );
+    for l in &violation_lines {
+        println!("{l}");
+    }
+    if harness_error {
+        2
+    } else if violations > 0 {
+        1
+    } else {
+        0
+    }
 }
